@@ -273,6 +273,16 @@ pub fn redeclarations(b: &Base) -> Vec<(String, Value)> {
         add("n_layers=16-all-following".to_string(), make_felt(fu(15) + last, lc, &st, last, nq, pow, nf, b.cols, None));
         add("n_layers=1-all-following".to_string(), make_felt(last, lc, &[Felt::ZERO], last, nq, pow, nf, b.cols, None));
     }
+    // columns moved between the two traces: the total is unchanged, the boundary between what is committed
+    // before and after the interaction challenges is not
+    {
+        let (c1, c2) = b.cols;
+        for (tag, cols) in [("one-to-second", (c1.saturating_sub(1), c2 + 1)), ("one-to-first", (c1 + 1, c2.saturating_sub(1))), ("all-but-one-to-second", (1, c1 + c2 - 1)), ("all-to-first", (c1 + c2, 0))] {
+            if cols != b.cols {
+                add(format!("trace-columns={}", tag), make(lt, lc, &steps, last, nq, pow, nf, cols, None));
+            }
+        }
+    }
     // query count / pow at the bounds
     for (tag, v) in [("0", Felt::ZERO), ("1", Felt::ONE), ("48", fu(48)), ("49", fu(49)), ("2^40", fu(1 << 40)), ("p-1", p_minus(1))] {
         add(format!("n_queries={}", tag), make(lt, lc, &steps, last, v, pow, nf, b.cols, None));
